@@ -966,6 +966,17 @@ def directed_cases():
         out.append({"suite": "alias", "op": op, "cls": imm, "kw": ikw})
     for nm in ("a", "b", "u", "m", "s"):
         out.append({"suite": "alias", "op": "fieldSerialize", "cls": imm, "kw": ikw, "field": nm})
+    # ImmutableStructure + a collection behind AnyOf: the wrapper was built on AnyOf's scratch structure
+    immw = dict(_cls("ImmW", [["m", {"k": "anyOf", "fields": [{"k": "mapAny"}]}], ["u", {"k": "anyOf", "fields": [{"k": "seqAny"}]}],
+                              ["q", {"k": "anyOf", "fields": [{"k": "seqAny", "seq": "deque"}]}],
+                              ["a", {"k": "anyOf", "fields": [ARR_INT]}], ["s", {"k": "anyOf", "fields": [{"k": "seqOf", "item": STR}]}],
+                              ["t", {"k": "anyOf", "fields": [{"k": "mapOf", "key": STR, "val": ARR_INT}]}]]), immutable=True)
+    wkw = [["m", {"m": [["k", {"l": [1]}]]}], ["u", {"l": [{"l": [1]}, 2]}], ["q", {"q": [1, 2]}], ["a", {"l": [1, 2]}],
+           ["s", {"l": ["x"]}], ["t", {"m": [["k", {"l": [1]}]]}]]
+    for op in ("construct", "serialize", "fastSerialize"):
+        out.append({"suite": "alias", "op": op, "cls": immw, "kw": wkw})
+    for nm in ("m", "u", "q", "a", "s", "t"):
+        out.append({"suite": "alias", "op": "fieldSerialize", "cls": immw, "kw": wkw, "field": nm})
     # undeclared keys at every level of a document (kept or dropped, never edited), both flag values
     inl = dict(_cls("InlX", [["x", INT], ["l", ARR_INT]], addl=True), inline=True)
     ref = _cls("RefX", [["x", INT]], addl=True)
